@@ -46,6 +46,23 @@ func TestMinimal(t *testing.T) {
 			Conns: []ConnPlan{{Reqs: []ReqPlan{{Tok: "k1", Attempts: []Attempt{{Kind: "vanish"}}}}, Client: "wait"}}}
 		one("vanish-then-retry-max_retries=1/"+proto, true, b, func() { runBatch(t, "minimal", b) })
 	}
+	// tcp proxy towards a host that resets every connection right after accepting it: the close event races the
+	// accounting of the new connection (fixed: 94dba109f - the host gauge stayed at 1 about once in 7000 sessions)
+	{
+		b := tcpRefuseBatch(24)
+		one("host-resets-after-accept-x24/tcp", true, b, func() { runBatch(t, "minimal", b) })
+	}
+	// the upstream closes a multiplexed connection while further requests are being set up on it: a stream that is
+	// reset before the pool listens to it must still give its request back (fixed: 3c85b9f4a)
+	for _, proto := range []string{"bolt", "boltpp"} {
+		b := &Batch{Setup: Setup{Proto: proto, Hosts: []string{"ok"}, GlobalMs: 100}, Kill: "fin", Probe: 1}
+		cp := ConnPlan{Client: "wait", Reqs: []ReqPlan{{Tok: "k1", Attempts: []Attempt{{Kind: "close", DelayMs: 5}}}}}
+		for i := 2; i <= 10; i++ {
+			cp.Reqs = append(cp.Reqs, ReqPlan{Tok: fmt.Sprintf("k%d", i), StartMs: i - 1})
+		}
+		b.Conns = []ConnPlan{cp}
+		one("connection-closed-under-requests-being-set-up/"+proto, true, b, func() { runBatch(t, "minimal", b) })
+	}
 	// one history per failure path and protocol
 	paths := map[string][]Attempt{
 		"timeout": {{Kind: "stall"}},
